@@ -116,6 +116,10 @@ WRAPPERS = ["o[%s]", "o.p[%s].value", "(%s).length", "q(%s)", "q(1, %s)", "[%s]"
             "f2() + ((%s).length > 1 ? 'L' : 'S')", "((%s).length > 1 ? a : b) + f2()", "y = %s", "(%s) || z", "z ?? (%s)"]
 
 
+LOW_PRECEDENCE = ["() => 1", "async () => y", "(p) => p + a", "p => { return p }", "a ? b : y", "y = z", "y += z", "a ?? b", "a || b && y", "function () { return a }",
+                  "class { m() { return a + b } }", "async function* () {}", "new K", "a, b" if False else "(a, b)", "!a", "-a", "typeof a", "void 0", "a ** b", "a instanceof K", "k in o", "a?.b ?? y", "x++", "--x"]
+
+
 def operations(rng, reserved=None):
     """One expression per (form x shapes) drawn with rng."""
     ops = OPERANDS + ([reserved] if reserved else [])
@@ -174,6 +178,12 @@ def operations(rng, reserved=None):
         lambda: "o[f(), k] += 'v'",
         lambda: "o[a, b].trim()",
         lambda: "`${x = y, x}`.concat(a)",
+        # operands of AssignmentExpression level where the grammar allows them unparenthesised (right of +=, substitution, argument):
+        # what is legal there is not legal as an operand of the rebuilt `t + rhs`
+        lambda: "%s += %s" % (rng.choice(["x", "o.p", "o[k]", "f().p", "(o.p)"]), rng.choice(LOW_PRECEDENCE)),
+        lambda: "`a${%s}b${%s}`" % (rng.choice(LOW_PRECEDENCE), o()),
+        lambda: "a.concat(%s, %s)" % (rng.choice(LOW_PRECEDENCE), o()),
+        lambda: "%s + (%s)" % (par(o()), rng.choice(LOW_PRECEDENCE)),
     ]
     return forms
 
